@@ -57,6 +57,10 @@ def fam_probe_loss(seed, n):
 def fam_evict(seed, n):
     return [scen.evict_script(seed, i) for i in range(n)]
 
+@family("probe_delay")
+def fam_probe_delay(seed, n):
+    return [scen.probe_delay_script(seed, i) for i in range(n)]
+
 @family("sockpeer")
 def fam_sockpeer(seed, n):
     return [scen.sockpeer_script(seed, i) for i in range(n)]
@@ -179,7 +183,7 @@ def c01(tier, seed):
     r = Result("C01", tier, seed)
     model(r, "MCData", "MCData_quick", "MCData")
     scripts = xfer_scripts(tier, seed, 50, 1000) + fam_mtu(seed, sizes(tier, 16, 300)) + fam_kf(seed, 6) + \
-        fam_peer_send(seed, sizes(tier, 48, 600))
+        fam_peer_send(seed, sizes(tier, 48, 600)) + fam_probe_delay(seed, sizes(tier, 24, 120))
     r.samples = [sample_of(s) for s in scripts[:2]]
     r.add_validated(core.run_and_validate("C01", scripts))
     req_parts = component(r, "ooq", tier, seed, ["C01."]) + component(r, "segs", tier, seed, ["C01.", "Segs."]) + \
